@@ -152,7 +152,32 @@ class Fn:
             def visit_Lambda(self, n):
                 return n
 
-        return T().visit(copy.deepcopy(expr))
+        out = T().visit(copy.deepcopy(expr))
+        return self._project(out) if depth == 0 else out
+
+    def _project(self, expr: ast.AST) -> ast.AST:
+        """`C(a=x, b=y).a` -> `x` for dataclasses of the repo (a record built and read back in one function)."""
+        fn = self
+
+        class P(ast.NodeTransformer):
+            def visit_Attribute(self, n):
+                self.generic_visit(n)
+                if isinstance(n.value, ast.Call) and dotted(n.value.func):
+                    ci = fn.repo.resolve_class(fn.module, n.value.func)
+                    if ci is not None and ci.is_dataclass:
+                        names = [f for f, _, _ in ci.fields]
+                        vals = {}
+                        for i, a in enumerate(n.value.args):
+                            if i < len(names):
+                                vals[names[i]] = a
+                        for k in n.value.keywords:
+                            if k.arg:
+                                vals[k.arg] = k.value
+                        if n.attr in vals:
+                            return vals[n.attr]
+                return n
+
+        return P().visit(expr)
 
     def expand_text(self, expr: ast.AST, at, keep=()) -> str:
         return norm_text(self.expand(expr, at, keep=keep))
@@ -197,6 +222,48 @@ def _pairs(target, value):
                 yield from _pairs(t, None)
     else:
         yield target, value
+
+
+def poly(repo: Repo, module: Module, e: ast.expr) -> dict:
+    """Polynomial normal form over name/attribute atoms with module constants folded: {sorted tuple of atoms: coefficient}."""
+    v = repo.try_fold(module, e)
+    if isinstance(v, int) and not isinstance(v, bool):
+        return {(): v} if v else {}
+    if isinstance(e, ast.BinOp) and isinstance(e.op, (ast.Add, ast.Sub)):
+        a, b = poly(repo, module, e.left), poly(repo, module, e.right)
+        out = dict(a)
+        for k, c in b.items():
+            out[k] = out.get(k, 0) + (c if isinstance(e.op, ast.Add) else -c)
+        return {k: c for k, c in out.items() if c}
+    if isinstance(e, ast.BinOp) and isinstance(e.op, ast.Mult):
+        a, b = poly(repo, module, e.left), poly(repo, module, e.right)
+        out = {}
+        for ka, va in a.items():
+            for kb, vb in b.items():
+                k = tuple(sorted(ka + kb))
+                out[k] = out.get(k, 0) + va * vb
+        return {k: c for k, c in out.items() if c}
+    if isinstance(e, ast.UnaryOp) and isinstance(e.op, ast.USub):
+        return {k: -c for k, c in poly(repo, module, e.operand).items()}
+    d = dotted(e)
+    if d is not None:
+        return {(d,): 1}
+    return {(norm_text(e),): 1}
+
+
+def same_relation(repo: Repo, module: Module, test: ast.expr, want: ast.expr) -> bool:
+    """Both are `a != b` / `a == b` comparisons and a - b agrees up to sign (operand order, constant folding and
+    re-association do not matter)."""
+    if not (isinstance(test, ast.Compare) and isinstance(want, ast.Compare) and len(test.ops) == 1 and len(want.ops) == 1 and type(test.ops[0]) is type(want.ops[0]) and isinstance(test.ops[0], (ast.Eq, ast.NotEq))):
+        return False
+    def diff(c):
+        a, b = poly(repo, module, c.left), poly(repo, module, c.comparators[0])
+        out = dict(a)
+        for k, v in b.items():
+            out[k] = out.get(k, 0) - v
+        return {k: v for k, v in out.items() if v}
+    d1, d2 = diff(test), diff(want)
+    return d1 == d2 or d1 == {k: -v for k, v in d2.items()}
 
 
 def inline_properties(repo: Repo, module: Module, expr: ast.AST, var: str, ci: Optional[ClassInfo], depth: int = 0) -> ast.AST:
